@@ -17,6 +17,9 @@ def run(ctx):
         if i % 3 == 0:
             # a field selection is a new column: editing it in place leaves its source as it was, and vice versa
             ops_array.case_result_is_new_sequence(ctx, s, only="view_")
+        if i % 4 == 1:
+            # the accessor of a Series object whose array was swapped by an in-place pandas call
+            ops_array.case_accessor_after_inplace(ctx, Subject(ctx, allow_hidden=False))
         if i % 6 == 0:
             # as many records as rows, but not one per row (2, missing, 0, 3, 0 …): a flat Series then has the
             # frame's length although it is not aligned with the frame
